@@ -215,6 +215,36 @@ func c17Gen(rng *core.RNG, idx int) c17Profile {
 		}
 		tags = append(tags, imggen.ICCTag{Sig: sig, Data: rng.Bytes(rng.Intn(120))})
 	}
+	// decoys: in a third of the profiles other tags (Apple's 'dscm', the device manufacturer / model
+	// descriptions, copyright, viewing-conditions description ...) carry well-formed description
+	// elements of their own, with other text; the description is still the 'desc' tag's
+	if idx%3 == 1 {
+		decoySigs := []string{"dscm", "dmnd", "dmdd", "cprt", "vued", "DESC", "desC", "csed"}
+		rot := rng.Intn(len(decoySigs))
+		k := 0
+		for i := range tags {
+			if tags[i].Sig == "desc" || rng.Intn(3) == 0 {
+				continue
+			}
+			if k < len(decoySigs) {
+				tags[i].Sig = decoySigs[(rot+k)%len(decoySigs)]
+			}
+			k++
+			txt := fmt.Sprintf("decoy %s #%d", tags[i].Sig, idx)
+			if rng.Bool() {
+				tags[i].Data = imggen.TextDescription(txt)
+			} else {
+				u := make([]uint16, len(txt))
+				for j, c := range []byte(txt) {
+					u[j] = uint16(c)
+				}
+				tags[i].Data, _ = imggen.Mluc([]imggen.MlucRecord{{Lang: "en", Country: "US", Text: u}}, nil, 0, 12)
+			}
+			if k >= 10 {
+				break
+			}
+		}
+	}
 	switch layout {
 	case "one-shared-block":
 		// every non-desc tag shares one data block
@@ -327,6 +357,65 @@ func c17Check(profile []byte, accept []string, hasDesc bool, via string) (kind, 
 		}
 		return "", "ok"
 	}
+	if via == "source-reused" || via == "concurrent-description" {
+		// source-reused: the profile is read from a bytes.Buffer / a byte slice which the caller then
+		// reuses for something else before asking for the description
+		for k := 0; k < 2; k++ {
+			cp := append([]byte{}, data...)
+			var p *icc.Profile
+			var err error
+			var pan any
+			bb := bytes.NewBuffer(cp)
+			if k == 0 {
+				p, err, pan = readProfile(bb)
+			} else {
+				p, err, pan = readProfile(bytes.NewReader(cp))
+			}
+			if pan != nil || err != nil || p == nil {
+				return "read-failed", fmt.Sprintf("ReadProfile failed on a well-formed profile: %v %v", err, pan)
+			}
+			if !hasDesc {
+				continue
+			}
+			if via == "source-reused" {
+				bb.Reset()
+				bb.Write(bytes.Repeat([]byte("Z"), len(data)))
+				for i := range cp {
+					cp[i] = 'Z'
+				}
+				d, derr, dpan := description(p)
+				okd := false
+				for _, a := range accept {
+					okd = okd || a == d
+				}
+				if dpan != nil || derr != nil || !okd {
+					return "wrong-description", fmt.Sprintf("after the caller reused the %s the profile had been read from: Description() = %q (err %v, panic %v), acceptable: %q", []string{"bytes.Buffer", "byte slice"}[k], d, derr, dpan, accept)
+				}
+				continue
+			}
+			// concurrent-description: eight goroutines ask the same freshly read profile at once
+			type res struct {
+				d   string
+				err error
+				pan any
+			}
+			out := make([]res, 8)
+			firstUsePhases(8, 1, func(g, ph int) {
+				d, e, pn := description(p)
+				out[g] = res{d, e, pn}
+			})
+			for g, o := range out {
+				okd := false
+				for _, a := range accept {
+					okd = okd || a == o.d
+				}
+				if o.pan != nil || o.err != nil || !okd {
+					return "wrong-description", fmt.Sprintf("eight goroutines asked one freshly read profile for its description at once; goroutine %d got %q (err %v, panic %v), acceptable: %q", g, o.d, o.err, o.pan, accept)
+				}
+			}
+		}
+		return "", "ok"
+	}
 	rd := bytes.NewReader(data)
 	if via == "offset" {
 		// the profile sits after other bytes in the same reader (e.g. after a chunk header)
@@ -371,11 +460,14 @@ func runC17(r *core.Run) {
 		var ring []c17Kept
 		for i := 0; i < n/shards; i++ {
 			p := c17Gen(rg, sh*(n/shards)+i)
-			for _, via := range []string{"direct", "jpeg", "offset", "bufio@4000"} {
+			for _, via := range []string{"direct", "jpeg", "offset", "bufio@4000", "source-reused", "concurrent-description"} {
 				if via != "direct" && i%8 != 0 {
 					continue
 				}
 				if via == "bufio@4000" && i%32 != 0 {
+					continue
+				}
+				if via == "concurrent-description" && i%16 != 0 {
 					continue
 				}
 				kind, msg := c17Check(p.bytes, p.accept, p.hasDesc, via)
